@@ -206,6 +206,15 @@ def _roots(expr, info: _FnInfo, mode="whole", out=None, seen=None, depth=0):
                 visit(inl, m)
                 return
             m2 = "lossy" if fname in LOSSY_CALLS else m
+            if fname in ("repr", "str", "format") and e.args:
+                # the text of an object is whatever its __repr__/__str__ prints (7 digits of mu, say): lossy unless the
+                # argument is declared to be a string already
+                a0 = e.args[0]
+                ann = None
+                if isinstance(a0, ast.Name):
+                    ann = next((ast.unparse(p_.annotation) for p_ in info.fn.args.args + info.fn.args.kwonlyargs if p_.arg == a0.id and p_.annotation is not None), None)
+                if ann not in ("str", "'str'"):
+                    m2 = "lossy"
             for a in e.args:
                 visit(a.value if isinstance(a, ast.Starred) else a, m2)
             for k in e.keywords:
@@ -256,6 +265,15 @@ def _roots(expr, info: _FnInfo, mode="whole", out=None, seen=None, depth=0):
                     visit(v, m)
                 return
             return  # module-level name / builtin / import: a constant of the program
+        if isinstance(e, ast.JoinedStr):
+            for v in e.values:
+                if isinstance(v, ast.FormattedValue):
+                    ann = None
+                    if isinstance(v.value, ast.Name):
+                        ann = next((ast.unparse(p_.annotation) for p_ in info.fn.args.args + info.fn.args.kwonlyargs if p_.arg == v.value.id and p_.annotation is not None), None)
+                    plain = v.format_spec is None and (isinstance(v.value, ast.Constant) or ann in ("str", "'str'", "int", "'int'"))
+                    visit(v.value, m if plain else "lossy")
+            return
         if isinstance(e, ast.Lambda):
             exprs, frees = _free_names_of_def(e)
             for x in exprs + frees:
